@@ -8,8 +8,10 @@ import (
 	"fmt"
 	"math/rand"
 	"runtime"
+	"sort"
 	"sync"
 	"sync/atomic"
+	"time"
 
 	"github.com/relab/hotstuff/core/eventloop"
 	"github.com/relab/hotstuff/internal/verif/hx"
@@ -252,8 +254,35 @@ func c14conc(args []string) error {
 		var mu sync.Mutex
 		var handled [][2]int // [producer, index] in handling order
 		var handled2 [][2]int
-		eventloop.Register(el, func(e evA) { mu.Lock(); handled = append(handled, [2]int{e.id / 1000, e.id % 1000}); mu.Unlock() })
-		eventloop.Register(el, func(e evA) { mu.Lock(); handled2 = append(handled2, [2]int{e.id / 1000, e.id % 1000}); mu.Unlock() }, eventloop.Prioritize())
+		// per event: when its prioritised handlers (one of them runs inside AddEvent, in the producer's goroutine, and is sometimes slow)
+		// finished and when its ordinary handler started
+		inAddEnd, prioEnd, ordStart := map[int]int{}, map[int]int{}, map[int]int{}
+		eventloop.Register(el, func(e evA) {
+			st := int(clock.Add(1))
+			mu.Lock()
+			ordStart[e.id] = st
+			handled = append(handled, [2]int{e.id / 1000, e.id % 1000})
+			mu.Unlock()
+		})
+		eventloop.Register(el, func(e evA) {
+			mu.Lock()
+			handled2 = append(handled2, [2]int{e.id / 1000, e.id % 1000})
+			mu.Unlock()
+			en := int(clock.Add(1))
+			mu.Lock()
+			prioEnd[e.id] = en
+			mu.Unlock()
+		}, eventloop.Prioritize())
+		eventloop.Register(el, func(e evA) {
+			if e.id%3 == 0 {
+				runtime.Gosched()
+				time.Sleep(30 * time.Microsecond)
+			}
+			en := int(clock.Add(1))
+			mu.Lock()
+			inAddEnd[e.id] = en
+			mu.Unlock()
+		}, eventloop.Prioritize(), eventloop.UnsafeRunInAddEvent())
 		ctx, cancel := context.WithCancel(context.Background())
 		done := make(chan struct{})
 		go func() { el.Run(ctx); close(done) }()
@@ -287,7 +316,12 @@ func c14conc(args []string) error {
 				adds = append(adds, obj{"p": s.P, "i": s.I, "start": s.Start, "end": s.End})
 			}
 		}
-		o.emit(obj{"op": "conc", "k": k, "m": m, "adds": adds, "handled": handled, "handledPrio": handled2})
+		var phases [][3]int
+		for id, st := range ordStart {
+			phases = append(phases, [3]int{inAddEnd[id], prioEnd[id], st})
+		}
+		sort.Slice(phases, func(i, j int) bool { return phases[i][2] < phases[j][2] })
+		o.emit(obj{"op": "conc", "k": k, "m": m, "adds": adds, "handled": handled, "handledPrio": handled2, "phases": phases})
 		_ = fmt.Sprint
 	}
 	return o.close()
